@@ -164,8 +164,26 @@ def run_impl(sc):
             return {"res": res, "store": store, "current": cur, "active": act, "kept": kept}
 
         obs = []
+        # other instances of the same class, over models of their own, created (and left alone) first - each
+        # with its own start_value
+        for d_ in sc.get("decoys", []):
+            try:
+                dk = {"state_field": sc["field"]}
+                if d_ is not None:
+                    dk["start_value"] = state_value(sc, d_)
+                dm = M(make_model(sc), **dk)
+                if sc.get("async_cb"):
+                    dm.activate_initial_state()
+            except Exception:  # noqa: BLE001 - not this machine's business
+                pass
         try:
             sm = M(model, **kw)
+            if sc.get("copy_first"):
+                # the machine is used through a deep copy taken right after construction (for a machine with
+                # coroutine callbacks: before its initial state was activated)
+                import copy
+                sm = copy.deepcopy(sm)
+                model = sm.model if model is not None else None
             mbox["sm"] = sm
             if sc.get("async_cb"):
                 sm.activate_initial_state()
@@ -325,7 +343,9 @@ def gen_case(rng):
             ops.append(["ext", {"raw": rng.choice(INVALID)}])
         else:
             ops.append(["ext", None])
-    return {"async_cb": async_cb and any(len(tr) > 3 for tr in trans), "dup_names": dup_names,
+    decoys = [rng.choice([None] + list(range(n))) for _ in range(rng.randint(1, 2))] if rng.random() < 0.3 else []
+    return {"decoys": decoys, "copy_first": rng.random() < 0.15,
+            "async_cb": async_cb and any(len(tr) > 3 for tr in trans), "dup_names": dup_names,
             "values": values, "initial": initial, "trans": trans, "shape": shape, "field": rng.choice(FIELDS),
             "stored": stored, "start": start, "ops": ops}
 
